@@ -209,6 +209,12 @@ CHECKS = {'C01': ('exploration',
 
 
 # additions of round 6, appended to the level text
+ROUND7 = {
+    "C04": "large numbers with neighbour mutations, long received strings around the 4096th character.",
+    "C05": "competitors that wait with a group of event matches.",
+    "C12": "Colang 1.0 value-generation statements in every block.",
+}
+
 ROUND6 = {
     "C01": "overlapping conversations on one instance (asyncio tasks on a virtual loop, rail actions and LLM calls with drawn latencies), two user messages in one call (open finding C01-F42 for config-style rails).",
     "C02": "LLM completions with $-tokens naming planted context variables / run-time context keys, compared on the whole text (the reply carries LLM text exactly as the rails released it).",
@@ -250,6 +256,8 @@ def main():
         cat, tech, text, note, ref = CHECKS[pid]
         if pid in ROUND6:
             text = text.rstrip() + " Since round 6 also: " + ROUND6[pid]
+        if pid in ROUND7:
+            text = text.rstrip() + " Since round 7 also: " + ROUND7[pid]
         checks.append(
             {
                 "property_id": pid,
